@@ -190,6 +190,63 @@ let do_query (args : string list) =
       print_endline (frame_str (Segment.spec_frame c (Address.tx_arb_id txa Physical) d))
   | _ -> failwith ("query " ^ S.concat " " args)
 
+(* ---- sockets: the wrapper model (Model/Sock.v) and the kernel interpretation (Spec/Kernel.v) ---- *)
+let wsock = ref Sock.wsock0
+let kern = ref Kernel.kinit
+let pyv_of s = if s = "-" then Sock.VNone else if s = "x" then Sock.VOther else Sock.VInt (zi s)
+let call_str = function
+  | Kernel.SetOpt (l, o, b) -> Printf.sprintf "set:%d:%d:%s" (int_of_z l) (int_of_z o) (bytes_to_hex b)
+  | Kernel.Bind (r, t) -> Printf.sprintf "bind:%d:%d" (int_of_z r) (int_of_z t)
+let wres_str = function
+  | Sock.ROk calls -> S.concat " " ("ok" :: L.map call_str calls)
+  | Sock.RValueError -> "valueerror"
+  | Sock.RRuntimeError -> "runtimeerror"
+let kstate_str (k : Kernel.kstate) =
+  Printf.sprintf "flags=%d txtime=%d ext=%d txpad=%d rxpad=%d rxext=%d bs=%d stmin=%d wft=%d mtu=%d txdl=%d llflags=%d txstmin=%d bound=%s"
+    (int_of_z k.Kernel.k_flags) (int_of_z k.Kernel.k_txtime) (int_of_z k.Kernel.k_ext) (int_of_z k.Kernel.k_txpad)
+    (int_of_z k.Kernel.k_rxpad) (int_of_z k.Kernel.k_rxext) (int_of_z k.Kernel.k_bs) (int_of_z k.Kernel.k_stmin)
+    (int_of_z k.Kernel.k_wft) (int_of_z k.Kernel.k_mtu) (int_of_z k.Kernel.k_txdl) (int_of_z k.Kernel.k_llflags)
+    (int_of_z k.Kernel.k_txstmin)
+    (match k.Kernel.k_bound with None -> "none" | Some (r, t) -> Printf.sprintf "%d,%d" (int_of_z r) (int_of_z t))
+let kaddr_str (k : Kernel.kstate) =
+  Printf.sprintf "txid=%s prefix=%s rxbyte=%s"
+    (match Kernel.kernel_tx_id k with None -> "none" | Some (i, e) -> Printf.sprintf "%d/%s" (int_of_z i) (b01 e))
+    (bytes_to_hex (Kernel.kernel_tx_prefix k)) (opt_str (Kernel.kernel_rx_byte k))
+let rec split_at_bar acc = function
+  | [] -> (L.rev acc, [])
+  | "|" :: r -> (L.rev acc, r)
+  | x :: r -> split_at_bar (x :: acc) r
+
+let do_sock (args : string list) =
+  let step (w, r) = wsock := w; print_endline (wres_str r) in
+  match args with
+  | ["reset"] -> wsock := Sock.wsock0; print_endline "ok"
+  | ["setopts"; a1; a2; a3; a4; a5; a6; a7] ->
+      step (Sock.w_set_opts !wsock (pyv_of a1) (pyv_of a2) (pyv_of a3) (pyv_of a4) (pyv_of a5) (pyv_of a6) (pyv_of a7))
+  | ["setfc"; a1; a2; a3] -> step (Sock.w_set_fc_opts !wsock (pyv_of a1) (pyv_of a2) (pyv_of a3))
+  | ["setll"; a1; a2; a3] -> step (Sock.w_set_ll_opts !wsock (pyv_of a1) (pyv_of a2) (pyv_of a3))
+  | "bind" :: asym :: rest ->
+      let (t, r) = split_at_bar [] rest in
+      let txa = addr_of t in
+      let rxa = if r = [] then txa else addr_of r in
+      step (Sock.w_bind !wsock txa rxa (bool_of asym))
+  | ["send"] -> print_endline (wres_str (Sock.w_send !wsock))
+  | ["recv"] -> print_endline (wres_str (Sock.w_recv !wsock))
+  | ["close"] -> wsock := Sock.w_close !wsock; print_endline "ok"
+  | ["state"] -> print_endline (kstate_str !wsock.Sock.w_k)
+  | ["addr"] -> print_endline (kaddr_str !wsock.Sock.w_k)
+  | _ -> failwith "sock"
+
+let do_kern (args : string list) =
+  match args with
+  | ["reset"] -> kern := Kernel.kinit; print_endline "ok"
+  | ["set"; l; o; hex] -> kern := Kernel.kapply !kern (Kernel.SetOpt (zi l, zi o, hex_to_bytes hex)); print_endline (kstate_str !kern)
+  | ["bind"; r; t] -> kern := Kernel.kapply !kern (Kernel.Bind (zi r, zi t)); print_endline (kstate_str !kern)
+  | ["state"] -> print_endline (kstate_str !kern)
+  | ["addr"] -> print_endline (kaddr_str !kern)
+  | ["accepts"; id; ext; hex] -> print_endline (b01 (Kernel.kernel_accepts !kern (zi id) (bool_of ext) (hex_to_bytes hex)))
+  | _ -> failwith "kern"
+
 let () =
   try
     while true do
@@ -211,6 +268,8 @@ let () =
              { cfg = c; w = { Layer.w_l = Layer.init_layer c (zi t0); Layer.w_inbox = [] } }
        | "OP" :: k :: args -> do_op (int_of_string k) args
        | "Q" :: args -> do_query args
+       | "S" :: args -> do_sock args
+       | "K" :: args -> do_kern args
        | ["ECHO"; s] -> print_endline s
        | _ -> failwith ("line " ^ line));
       flush stdout
